@@ -1689,7 +1689,8 @@ def bounded_histories(task, tier, seed):
     import shutil
     import tempfile
     t0 = time.time()
-    depth = 4 if tier == "quick" else 5
+    # quick tier: full depth on DictLoader and FileSystemLoader, one less on the two FunctionLoader variants (pure volume)
+    depth = (4 if task.loader_kind in ("dict", "fs") else 3) if tier == "quick" else 5
     n, rs = 0, []
     tmp = tempfile.mkdtemp(prefix="c25hist")
     try:
@@ -1729,7 +1730,7 @@ def replay_history(w):
     return (bool(r), r or "history agrees with the reference model")
 
 
-HIST_BOUND = ("all histories of length <= 4 (thorough 5; FileSystemLoader one less) ending in a lookup over 2 names with get / select([a,b]) / "
+HIST_BOUND = ("all histories of length <= 4 (quick: 3 on the FunctionLoader variants; thorough 5; FileSystemLoader one less) ending in a lookup over 2 names with get / select([a,b]) / "
               "select([b,a]) / modify / delete, cache sizes 0, 1, 2, unbounded, auto_reload on/off, on DictLoader, FunctionLoader (with and "
               "without check) and FileSystemLoader (real files, forced mtime changes, newer, OLDER, and differing by a millisecond within the same second); rendered output and cache keys vs the reference model")
 
